@@ -12,6 +12,20 @@ P={}
 P["C01"]={"level":"proof","design_ref":"6 C01",
  "funcs":["snaps.escapeEndChars","snaps.unescapeEndChars"]+storage+["snaps.matchSnapshot","snaps.matchJSON","snaps.matchYAML","snaps.takeYAMLSnapshot"],
  "explanation":"Round trip through the file format for every body text: addNewSnapshot appends a record whose lookup is the appended body (lemmas add_shape, RT_add, WF_add over the real Fprintf), getPrevSnapshot computes exactly the first-occurrence lookup (loop invariants over the scanner), and a matching stored body makes each multi-entry match* body pass without any effect (postcondition replay: no Error, no Log, no write). Values are uninterpreted lines, so neither content, UTF-8 validity nor length matters; CR-terminated lines are excluded as in the statement."}
+difflib=["difflib.min","difflib.max","difflib.(*sequenceMatcher).chainB","difflib.(*sequenceMatcher).setSeq1","difflib.(*sequenceMatcher).setSeq2","difflib.(*sequenceMatcher).setSeqs","difflib.NewMatcher",
+ "difflib.(*sequenceMatcher).isBJunk","difflib.(*sequenceMatcher).findLongestMatch","difflib.(*sequenceMatcher).getMatchingBlocks$1","difflib.(*sequenceMatcher).getMatchingBlocks",
+ "difflib.(*sequenceMatcher).getOpCodes","difflib.(*sequenceMatcher).GetGroupedOpCodes","difflib.FormatRangeUnified"]
+colorsf=["colors.Sprint","colors.Fprint","colors.FprintEqual","colors.hasNewlineSuffix","colors.trimSuffix","colors.FprintDelete","colors.FprintInsert","colors.FprintDeleteBold","colors.FprintInsertBold","colors.FprintRange","colors.FprintBg"]
+difff=["snaps.splitNewlines","snaps.isSingleline","snaps.hasNewLine","snaps.shouldPrintHighlights","snaps.printRange","snaps.intPadding$1","snaps.intPadding","snaps.singlelineDiff","snaps.buildDiffReport","snaps.getUnifiedDiff","snaps.prettyDiff"]
+P["C02"]={"level":"proof","design_ref":"6 C02",
+ "funcs":difff+difflib+["snaps.escapeEndChars","snaps.unescapeEndChars"]+bodies,
+ "lemmas":["compare_faithful","escape_injective","escape_injective_noESC","body_noEND","unesc_esc"],
+ "only":["snaps\\.(splitNewlines|isSingleline|hasNewLine|shouldPrintHighlights|printRange|intPadding|singlelineDiff|buildDiffReport|getUnifiedDiff|prettyDiff|escapeEndChars|unescapeEndChars)","difflib\\.","#ensures#(mismatch|one_outcome|replay|missing_ro)","#vacuity","lemma\\."],
+ "assumptions":["diffmatchpatch.DiffMain/DiffCleanupSemantic: a single Equal diff means identical texts, for valid UTF-8 (assumed contract; bounded validation pending)","a concatenation of newline-terminated lines determines the lines (axiom joinE_inj)","JSON snapshots (tidwall/pretty output) contain no line equal to --- (needed only for the JSON mismatch clause)"],
+ "explanation":"prettyDiff returns the empty report iff the two texts are identical: the line diff is non-empty for different texts (getUnifiedDiff#nonempty, resting on the verified difflib: opcodes tile both texts, identical ranges only where marked, grouping never omits a changed opcode), the inline diff is only used for valid UTF-8 (shouldPrintHighlights#valid_utf8, finding F3 fixed) where the assumed diffmatchpatch contract applies, and buildDiffReport is empty iff its diff is. In the match* bodies a stored body different from the received text leads, without update permission, to exactly one Error and no write (postcondition mismatch); escaping is injective only on texts without a /-/-/-/ line (known finding K1)."}
+P["C13"]={"level":"proof","design_ref":"6 C13",
+ "funcs":difflib+colorsf+difff,
+ "explanation":"Unbounded in both texts (lines are uninterpreted values with equality, so whitespace/invalid UTF-8/long lines/the popular-line heuristic need no special cases). difflib: findLongestMatch returns an in-window block of identical lines (DP invariant), getMatchingBlocks returns in-bounds, identical, strictly ordered, sentinel-terminated blocks (recursive closure + collapse loop), getOpCodes tiles both texts contiguously from (0,0) to (len a,len b) with the tag shapes of the statement and marks Equal only identical lines, and if every opcode covers identical ranges the texts are identical; GetGroupedOpCodes yields non-empty groups of in-bounds opcodes and keeps at least one changed opcode whenever the texts differ. getUnifiedDiff: non-empty output for different texts; under NO_COLOR the returned counts equal the numbers of FprintDelete/FprintInsert calls (ghost counters), which buildDiffReport prints in the header; colors.* under NO_COLOR output exactly an ASCII prefix plus the argument. Not decided: that each printed - line is a line of the stored text by position (only by construction of the loops), and the replay of the edit script as a whole-text equation."}
 P["C03"]={"level":"proof","design_ref":"6 C03",
  "funcs":registry+standalone[2:]+cleanups+bodies+["snaps.addNewSnapshot","snaps.updateSnapshot"],
  "only":["#ensures#(count|cleanup|id|inv|stable|ordinal|iso|wf|other|created_others|updated_others|invalid|matcher_errors)","#pre\\(\\(\\*sync(Standalone)?Registry\\)","#vacuity","lemma\\.", "#ensures#\\d", "#frame#M"],
@@ -45,13 +59,11 @@ P["C20"]={"level":"proof","design_ref":"6 C20",
  "explanation":"Exactly one outcome per call: postcondition one_outcome of every match* body over the ghost counters of the testingT (Error/Log calls) and the event counters, on every path; handleError is one Error plus one register(erred); register increments exactly one counter under its mutex. The summary half of the statement is not yet under contract."}
 json.dump(P,open('/verif/contracts/properties.json','w'),indent=1)
 na={
- "C02":"in progress: prettyDiff/diff engine contracts not built yet",
  "C07":"in progress: Clean contracts not built yet",
  "C08":"in progress",
  "C09":"in progress",
  "C10":"in progress",
  "C11":"in progress",
- "C13":"in progress",
  "C14":"in progress",
  "C15":"in progress",
  "C16":"in progress",
